@@ -197,7 +197,7 @@ func runForeign(c jobCase) {
 					stripeNode(lps[ci].chain, lps[ci].idx, kids[lps[ci].idx[0]], 0, 0, 0, &es)
 				}
 				ri += cnt
-				p := pq.PageSpec{Pad: uint8(fc.Pad), Stats: fc.Stats, Extras: fc.Extras}
+				p := pq.PageSpec{Pad: uint8(fc.Pad), Stats: fc.Stats, Extras: fc.Extras && pi%2 == 0} // optional header fields (crc ...) on every other page only
 				for _, e := range es {
 					colEntries[ci] = append(colEntries[ci], []int{e.r, e.d, e.tok})
 					p.Reps = append(p.Reps, uint8(e.r))
@@ -212,7 +212,7 @@ func runForeign(c jobCase) {
 				if fs.Unsup != nil && fs.Unsup.RG == gi && fs.Unsup.Col == ci {
 					f := fs.Unsup.Feature
 					switch {
-					case f == "dict" || f == "dict-rle" || len(f) > 6 && f[:6] == "codec-":
+					case f == "dict" || f == "dict-rle" || f == "dict-plain" || len(f) > 6 && f[:6] == "codec-":
 						ch.Feature = f
 					case fs.Unsup.Page == pi || fs.Unsup.Page >= len(counts) && pi == len(counts)-1:
 						p.Feature = f
@@ -273,6 +273,9 @@ func runForeign(c jobCase) {
 		mode = "unsup"
 	}
 	emit(res.event(mode, event{"saferows": safeRows, "feature": feature}))
+	if c.Intro && fs.Unsup == nil {
+		runIntro(file, true)
+	}
 	for _, rs := range c.Reads {
 		if rs.Mode == "chunk" {
 			res := runReader(file, &source{data: file, chunk: rs.Chunk}, c.Poff, limit, false)
